@@ -1,4 +1,139 @@
+import AsyncVerif.Proofs.Core
 import AsyncVerif.Impl.Aggregations
+/-!
+# C20 — bounded retention  (partial by nature)
+
+Object lifetime is a property of CPython frames and reference counts, which the model does not
+have.  What the model does have are the *explicit containers* a tool carries from one step to the
+next — they are the arguments of the model's loops: `batch` of `batched`, the row under
+construction of `zip`/`map`, the heap of `merge` (one entry per live source), the previous item of
+`pairwise`, the running value of `accumulate`/`reduce`/`min`/`max`; all other streaming loops carry
+no item at all (`filterLoop`, `takewhileLoop`, `enumerateLoop` carry at most a counter).  The
+theorems below bound those containers for **every world** and every stream length.  That the real
+frames hold nothing else is measured on every run with weak references (harness/props/c20.py).
+-/
 namespace AsyncVerif
-theorem C20_placeholder_true : True := trivial
+
+/-- `batched`: the batch under construction never exceeds the window `n` (and is exactly `n` when
+    reported full), for every source script and fault position -/
+theorem C20_batched_window (s : Nat) : ∀ (n : Nat) (acc : List Val) (w : World) (batch : List Val) (full : Bool) (w' : World),
+    Std.collect s n acc w = (.ok (batch, full), w') →
+    batch.length ≤ acc.length + n ∧ (full = true → batch.length = acc.length + n) := by
+  intro n
+  induction n with
+  | zero =>
+    intro acc w batch full w' h
+    simp only [Std.collect, pure_apply, Prod.mk.injEq, Except.ok.injEq] at h
+    obtain ⟨⟨rfl, rfl⟩, _⟩ := h
+    simp
+  | succ n ih =>
+    intro acc w batch full w' h
+    simp only [Std.collect, bind_apply] at h
+    rcases hp : pull s w with ⟨r, w1⟩
+    rw [hp] at h
+    cases r with
+    | error e => simp at h
+    | ok o =>
+      cases o with
+      | none =>
+        simp only [pure_apply, Prod.mk.injEq, Except.ok.injEq] at h
+        obtain ⟨⟨rfl, rfl⟩, _⟩ := h
+        exact ⟨by omega, by simp⟩
+      | some x =>
+        have := ih (acc ++ [x]) w1 batch full w' h
+        simp only [List.length_append, List.length_cons, List.length_nil] at this
+        exact ⟨by omega, fun hf => by have := this.2 hf; omega⟩
+
+/-- `zip` / `map` / `zip(strict)`: a completed row has exactly one item per source -/
+theorem C20_zip_row (srcs : List Nat) : ∀ (acc : List Val) (w : World) (row : List Val) (w' : World),
+    Std.zipRow srcs acc w = (.ok (some row), w') → row.length = acc.length + srcs.length := by
+  induction srcs with
+  | nil =>
+    intro acc w row w' h
+    simp only [Std.zipRow, pure_apply, Prod.mk.injEq, Except.ok.injEq, Option.some.injEq] at h
+    obtain ⟨rfl, _⟩ := h
+    simp
+  | cons s rest ih =>
+    intro acc w row w' h
+    simp only [Std.zipRow, bind_apply] at h
+    rcases hp : pull s w with ⟨r, w1⟩
+    rw [hp] at h
+    cases r with
+    | error e => simp at h
+    | ok o =>
+      cases o with
+      | none => simp [pure_apply] at h
+      | some x =>
+        have := ih (acc ++ [x]) w1 row w' h
+        simp only [List.length_append, List.length_cons, List.length_nil] at this ⊢
+        omega
+
+/-- `merge`: collecting the first items creates at most one heap entry per source -/
+theorem C20_merge_one_head_per_source (fn : Option Nat) (srcs : List Nat) :
+    ∀ (idx : Nat) (acc : List Std.Entry) (w : World) (hs : List Std.Entry) (w' : World),
+    Std.heads fn srcs idx acc w = (.ok hs, w') → hs.length ≤ acc.length + srcs.length := by
+  induction srcs with
+  | nil =>
+    intro idx acc w hs w' h
+    simp only [Std.heads, pure_apply, Prod.mk.injEq, Except.ok.injEq] at h
+    obtain ⟨rfl, _⟩ := h
+    simp
+  | cons s rest ih =>
+    intro idx acc w hs w' h
+    simp only [Std.heads, bind_apply] at h
+    rcases hp : pull s w with ⟨r, w1⟩
+    rw [hp] at h
+    cases r with
+    | error e => simp at h
+    | ok o =>
+      cases o with
+      | none =>
+        have := ih (idx + 1) acc w1 hs w' h
+        simp only [List.length_cons]; omega
+      | some x =>
+        simp only [bind_apply] at h
+        rcases hk : Std.keyOf fn x w1 with ⟨rk, w2⟩
+        rw [hk] at h
+        cases rk with
+        | error e => simp at h
+        | ok k =>
+          have := ih (idx + 1) _ w2 hs w' h
+          simp only [List.length_append, List.length_cons, List.length_nil] at this ⊢
+          omega
+
+/-- `merge`: taking the minimum entry out of the heap removes exactly one entry, so the heap of the
+    merging loop (`others`, or `others` plus the refilled entry) never grows -/
+theorem C20_merge_heap_never_grows (reverse : Bool) : ∀ (heap : List Std.Entry) (e : Std.Entry) (others : List Std.Entry),
+    Std.popMin reverse heap = some (e, others) → others.length + 1 = heap.length := by
+  intro heap
+  induction heap with
+  | nil => intro e others h; simp [Std.popMin] at h
+  | cons x rest ih =>
+    intro e others h
+    simp only [Std.popMin] at h
+    cases hr : Std.popMin reverse rest with
+    | none =>
+      rw [hr] at h
+      simp only [Option.some.injEq, Prod.mk.injEq] at h
+      obtain ⟨_, rfl⟩ := h
+      cases rest with
+      | nil => rfl
+      | cons y ys => simp [Std.popMin] at hr; cases hq : Std.popMin reverse ys <;> simp [hq] at hr <;> split at hr <;> simp at hr
+    | some p =>
+      obtain ⟨m, os⟩ := p
+      rw [hr] at h
+      have hlen := ih m os hr
+      simp only at h
+      split at h
+      · simp only [Option.some.injEq, Prod.mk.injEq] at h
+        obtain ⟨_, rfl⟩ := h
+        simp only [List.length_cons]; omega
+      · simp only [Option.some.injEq, Prod.mk.injEq] at h
+        obtain ⟨_, rfl⟩ := h
+        simp only [List.length_cons]; omega
+
+/-! Non-vacuity -/
+example : (Std.popMin false [⟨.int 3, .int 3, 0, 0⟩, ⟨.int 1, .int 1, 1, 1⟩]).map (fun p => (p.1.idx, p.2.length)) = some (1, 1) := by
+  decide
+
 end AsyncVerif
